@@ -216,7 +216,9 @@ def gen_spec(rng: random.Random, circular=None, length=None, max_genes: int = 14
                                  "quals": rng.choice([{"note": ["external motif"]},
                                                       {"note": ["external motif"], "label": ["ext_label"]}])})
     _gen_annotations(rng, spec, rich)
-    structures = [["NC(C)C(=O)NC(CO)C(=O)O", "(ala) + (ser)"], ["CC(=O)CC(O)CC(=O)O", "(mal - ohmal)"], ["C1CC1", None]]
+    # (a prediction for a candidate without modules is the empty string, as gen_smiles_from_pksnrps([]) returns)
+    structures = [["NC(C)C(=O)NC(CO)C(=O)O", "(ala) + (ser)"], ["CC(=O)CC(O)CC(=O)O", "(mal - ohmal)"], ["C1CC1", None],
+                  ["", ""], ["", None]]
     spec["candidate_structures"] = [rng.choice(structures) if rich and rng.random() < 0.4 else None for _ in range(12)]
     return spec
 
@@ -310,6 +312,20 @@ def _gen_annotations(rng, spec, rich):
             sub["tool"] = rng.choice(["extool", "other-tool v2"])
             sub["extra"] = rng.choice([{}, {"ext_score": ["0.5"]}, {"ext_a": ["x", "y"]}])
         subs.append(sub)
+    if rich and not split_layout and rng.random() < 0.06 and spec["L"] > 3000:
+        # ten or twelve subregions in pairs of identical coordinates (two tools marking the same stretch): the numbers
+        # run into two digits and the ninth and tenth share their coordinates
+        subs = []
+        pairs = rng.choice([5, 6])
+        width = (spec["L"] - 200) // pairs
+        for k in range(pairs):
+            s = k * width + rng.randrange(0, width // 3)
+            e = min(spec["L"], s + rng.randrange(150, max(151, width // 2)))
+            for label in ("first", "second"):
+                subs.append({"tool": rng.choice(["cassis", "clusterfinder"]), "label": f"{label}{k}", "sideloaded": False,
+                             "extra": {}, "range": [s, e]})
+        rng.shuffle(subs)
+        spec["many_subregions"] = True
     spec["subregions"] = subs
     # ---- per gene annotations
     ann = {}
@@ -593,6 +609,22 @@ def build_from_spec(spec: dict) -> Record:
     quiet()
     record = Record.from_biopython(make_input(spec), taxon="bacteria")
     record.record_index = 1
+    return annotate(record, spec)
+
+
+def reannotation_spec(spec: dict) -> dict:
+    """ the same input record with another run's annotations (other protoclusters, functions, domains ...) """
+    import copy
+    other = copy.deepcopy(spec)
+    other.pop("_hold_modules", None)
+    rng = random.Random(spec["seq_seed"] * 7 + 3)
+    _gen_annotations(rng, other, True)
+    other["candidate_structures"] = list(reversed(spec.get("candidate_structures", [])))
+    return other
+
+
+def annotate(record: Record, spec: dict) -> Record:
+    """ adds the annotations of the spec to a record that holds the spec's genes and nothing of antiSMASH's """
     by_name = {}
     for gene in spec["genes"]:
         by_name[gene["name"]] = record.get_cds_by_name(gene["name"])
@@ -677,7 +709,7 @@ def build_from_spec(spec: dict) -> Record:
     # structure predictions (as the nrps_pks module attaches them): some candidates have them, others do not, and
     # one without follows one with
     for candidate, structure in zip(record.get_candidate_clusters(), spec.get("candidate_structures", [])):
-        if structure:
+        if structure is not None:
             candidate.smiles_structure, candidate.polymer = structure
     record.create_regions()
     return record
